@@ -137,7 +137,26 @@ fn spec_timeout(spec: &RunSpec) -> u64 {
 
 pub static TIMEOUT_RETRIES: std::sync::atomic::AtomicU64 = std::sync::atomic::AtomicU64::new(0);
 static WATCH: std::sync::Mutex<Vec<(u32, std::time::Instant)>> = std::sync::Mutex::new(Vec::new());
-static KILLED: std::sync::Mutex<Vec<u32>> = std::sync::Mutex::new(Vec::new());
+/// (pid, blocked): `blocked` = at the moment the limit struck every thread of the process was sleeping (state S in
+/// /proc/<pid>/task/*/stat) - it was waiting for something, not computing
+static KILLED: std::sync::Mutex<Vec<(u32, bool)>> = std::sync::Mutex::new(Vec::new());
+
+fn all_threads_sleeping(pid: u32) -> bool {
+    let mut n = 0;
+    if let Ok(rd) = fs::read_dir(format!("/proc/{}/task", pid)) {
+        for e in rd.flatten() {
+            if let Ok(stat) = fs::read_to_string(e.path().join("stat")) {
+                // the state is the first field after the parenthesised command name
+                let state = stat.rfind(')').and_then(|p| stat[p + 1..].trim_start().chars().next()).unwrap_or('?');
+                if state != 'S' {
+                    return false;
+                }
+                n += 1;
+            }
+        }
+    }
+    n > 0
+}
 static WATCHDOG: std::sync::Once = std::sync::Once::new();
 
 fn start_watchdog() {
@@ -149,8 +168,13 @@ fn start_watchdog() {
             let mut k = KILLED.lock().unwrap();
             w.retain(|(pid, deadline)| {
                 if now >= *deadline {
+                    // two looks 50 ms apart: a process that is merely between two time slices is not taken for a blocked one
+                    let blocked = all_threads_sleeping(*pid) && {
+                        std::thread::sleep(std::time::Duration::from_millis(50));
+                        all_threads_sleeping(*pid)
+                    };
                     unsafe { libc::kill(*pid as i32, libc::SIGKILL) };
-                    k.push(*pid);
+                    k.push((*pid, blocked));
                     false
                 } else {
                     true
@@ -164,7 +188,10 @@ fn start_watchdog() {
 pub fn output_with_watchdog(cmd: &mut Command, timeout_s: u64) -> std::io::Result<std::process::Output> {
     start_watchdog();
     let mut last = None;
+    let mut blocked_runs = 0;
+    let mut attempts = 0;
     for _attempt in 0..5 {
+        attempts += 1;
         let child = cmd.spawn()?;
         let pid = child.id();
         WATCH.lock().unwrap().push((pid, std::time::Instant::now() + std::time::Duration::from_secs(timeout_s)));
@@ -172,9 +199,12 @@ pub fn output_with_watchdog(cmd: &mut Command, timeout_s: u64) -> std::io::Resul
         WATCH.lock().unwrap().retain(|(p, _)| *p != pid);
         let was_killed = {
             let mut k = KILLED.lock().unwrap();
-            let hit = k.contains(&pid);
-            k.retain(|p| *p != pid);
-            hit
+            let hit = k.iter().find(|(p, _)| *p == pid).map(|(_, b)| *b);
+            k.retain(|(p, _)| *p != pid);
+            if hit == Some(true) {
+                blocked_runs += 1;
+            }
+            hit.is_some()
         };
         let out = out?;
         if !was_killed {
@@ -182,9 +212,19 @@ pub fn output_with_watchdog(cmd: &mut Command, timeout_s: u64) -> std::io::Resul
         }
         TIMEOUT_RETRIES.fetch_add(1, std::sync::atomic::Ordering::SeqCst);
         last = Some(out);
+        // blocked both times: a third look would show the same
+        if blocked_runs == attempts && attempts >= 2 {
+            break;
+        }
     }
     let mut out = last.unwrap();
-    out.stderr.extend_from_slice(b"\nVERIF-TIMEOUT: execution exceeded the wall limit 5 times\n");
+    if blocked_runs == attempts {
+        // not slowness: every execution sat with every thread asleep when the limit struck (a deadlock, a wait for
+        // something that never comes). That is an observation about the subject, not about the machinery.
+        out.stderr.extend_from_slice(format!("\nVERIF-HANG: the process did not terminate: in {} of {} executions every thread was blocked (asleep) when the wall limit of {} s struck\n", blocked_runs, attempts, timeout_s).as_bytes());
+    } else {
+        out.stderr.extend_from_slice(b"\nVERIF-TIMEOUT: execution exceeded the wall limit 5 times\n");
+    }
     Ok(out)
 }
 
@@ -206,7 +246,7 @@ pub fn read_dir_files(dir: &Path) -> BTreeMap<String, Vec<u8>> {
 
 /// How the two directories are named on the command line (env entry VERIF_PATH_FORM of the spec; default 0):
 /// 0 absolute; 1 relative to the current directory (= their parent); 2 absolute with a trailing slash; 3 relative with `.` and
-/// `..` components and trailing slashes; 4 through symbolic links; 5 current directory = the data directory (`-d .`, `../dump`).
+/// `..` components and trailing slashes; 4 through symbolic links; 5 current directory = the data directory (`-d .`, `../dump`); 6-8 current directory = the dump folder, named `""`, `.`, `./`.
 pub fn path_form(spec: &RunSpec, data: &Path, dump: &Path) -> (Option<PathBuf>, PathBuf, PathBuf) {
     let form: u8 = spec.env.iter().find(|(k, _)| k == "VERIF_PATH_FORM").and_then(|(_, v)| v.parse().ok()).unwrap_or(0);
     let parent = data.parent().unwrap_or(Path::new("/")).to_path_buf();
@@ -224,6 +264,10 @@ pub fn path_form(spec: &RunSpec, data: &Path, dump: &Path) -> (Option<PathBuf>, 
             (None, ld, lp)
         }
         5 => (Some(data.to_path_buf()), PathBuf::from("."), PathBuf::from(format!("../{}", name(dump)))),
+        // current directory = the dump folder, named by the empty string (`"$OUT"` with OUT unset), by `.` and by `./`
+        6 => (Some(dump.to_path_buf()), data.to_path_buf(), PathBuf::from("")),
+        7 => (Some(dump.to_path_buf()), PathBuf::from(format!("../{}", name(data))), PathBuf::from(".")),
+        8 => (Some(dump.to_path_buf()), data.to_path_buf(), PathBuf::from("./")),
         _ => (None, data.to_path_buf(), dump.to_path_buf()),
     }
 }
